@@ -35,7 +35,7 @@ fn expect_completed(out: &DecapOut, pdu: &[u8], pt: u16, l: Lbl, n: usize) -> Op
 
 pub fn run(tier: Tier) -> i32 {
     let rep = Report::new("C16", tier);
-    rep.set_rule("receiver states: closure of the 1-slot receiver system, the 2-slot system to depth 9 (thorough: closure) and a 3-slot system (a table size that is not a power of two) to depth 4 (thorough 6) over provision / new_pdu / reset / decap(46-packet alphabet incl. every rejection reason, malformed and truncated buffers, unfinished trains); in EVERY state the recovery probe runs on restored copies: reset_last_label, provision one buffer of the configured PDU size (Ok or StorageOverflow accepted), then (i) a valid complete packet with a 6-byte resp. 3-byte label, (ii) a valid 3-fragment PDU on each fragment id in {0, 1, slots (aliasing), 255} with both label kinds, plus three 'twins' of the trains the alphabet leaves unfinished (same fragment id, label, protocol type and total length, other PDU bytes); distinct = probe outcome classes");
+    rep.set_rule("receiver states: closure of the 1-slot receiver system, the 2-slot system to depth 9 (thorough: closure) and a 3-slot system (a table size that is not a power of two) to depth 4 (thorough 6) over provision / new_pdu / reset / decap(46-packet alphabet incl. every rejection reason, malformed and truncated buffers, unfinished trains); in EVERY state the recovery probe runs on restored copies: reset_last_label, provision one buffer of the configured PDU size (Ok or StorageOverflow accepted), then (i) a valid complete packet with a 6-byte resp. 3-byte label, (ii) a valid 3-fragment PDU on each fragment id in {0, 1, slots (aliasing), 255} with both label kinds, plus three 'twins' of the trains the alphabet leaves unfinished (same fragment id, label, protocol type and total length, other PDU bytes); directed: after three short histories the storage made available has 65535..131075 bytes, same train probe on four fragment ids; distinct = probe outcome classes");
     rep.assume("histories are drawn from the 46-packet alphabet (structured, not random bytes); C05 covers arbitrary bytes for totality");
     let mgr = mgr_std();
     for slots in [1usize, 2, 3] {
@@ -132,6 +132,40 @@ pub fn run(tier: Tier) -> i32 {
             }
             rep.merge(acc);
         });
+    }
+    // directed: storages around 64 KiB (lengths that do not fit 16 bits). A receiver whose pool holds such a storage, alone
+    // or on top of a full free list after a short history, must still reassemble a valid fragmented PDU and a complete one.
+    {
+        let mut acc = Acc::default();
+        let pdu_z: [u8; 4] = PDU_Z;
+        for big in [65535usize, 65536, 65537, 65540, 70000, 131072, 131075] {
+            for (hname, hist) in [("empty history", vec![]), ("complete packet delivered in it, given back", vec![Desc::complete(L3A, 0x0800, &[0x61]).print()]), ("train left unfinished, complete packet delivered, given back", vec![Desc::first(L3A, 0x0800, 1, 11, &[0x62, 0x63]).print(), Desc::complete(L6A, 0x0800, &[0x64]).print()])] {
+                for f in [0u8, 1, 2, 255] {
+                    let mut d = RxS::new(2, 64, &[64, 64]).build(DefaultCrc {}, mgr.clone());
+                    for h in &hist {
+                        if let DecapOut::Completed { buf, .. } = do_decap(&mut d, h) {
+                            let _ = d.provision_storage(vec![0u8; buf.len()].into_boxed_slice());
+                        }
+                    }
+                    d.reset_last_label();
+                    // the one storage the caller makes available is the large one
+                    let _ = d.provision_storage(vec![0u8; big].into_boxed_slice());
+                    let (p1, p2, p3, _) = train(L6B, f, &pdu_z, 0x0800);
+                    let o1 = do_decap(&mut d, &p1);
+                    let o2 = do_decap(&mut d, &p2);
+                    let o3 = do_decap(&mut d, &p3);
+                    acc.states += 1;
+                    acc.transitions += 3 + hist.len() as u64;
+                    acc.calls += 3 + hist.len() as u64;
+                    acc.compared += 1;
+                    if let Some(why) = expect_completed(&o3, &pdu_z, 0x0800, L6B, p3.len()) {
+                        rep.violation(&format!("C16|large-storage|train-probe|{}", o1.class()), big as u64, || (format!("after {}, reset + provision of a {}-byte storage: a valid 3-fragment PDU on frag id {} is not delivered: {} / {} / {} ({})", hname, big, f, o1.brief(), o2.brief(), o3.class(), why), json!({"storage_sizes": [64, big], "history": hist.iter().map(|h| hex(h)).collect::<Vec<_>>(), "packets": [hex(&p1), hex(&p2), hex(&p3)], "receiver": {"slots": 2, "storage": big, "buffers": 1}})));
+                    }
+                }
+            }
+        }
+        rep.merge(acc);
+        rep.part(json!({"part": "directed: storages of 65535..131075 bytes in the pool", "sizes": [65535, 65536, 65537, 65540, 70000, 131072, 131075]}));
     }
     // hidden-state robustness: every history up to a small depth on live objects (no restore)
     for slots in [1usize, 2] {
